@@ -206,6 +206,8 @@ package mqtt
 //@   assigns any RetryClient.retryQueue; any RetryClient.newRetryByError; copyMsg; cli.idLast
 //@   ensures[C01,C03,C12] first_transmission: evCount("(*RetryClient).publish$1") == 1 && evArg[*BaseClient]("(*RetryClient).publish$1", 0, 1) == cli &&
 //@        evArg[context.Context]("(*RetryClient).publish$1", 0, 0) == ctx && result == nil
+//@   note the helper queues the continuation of a failed attempt itself; a non-nil result would make Retry queue it a second time
+//@   ensures[C01,C02,C12] handles_own_failure: result == nil
 
 //@ func (*RetryClient).publish
 //@   role task
